@@ -22,76 +22,115 @@ func (fx *fnExec) indexAnchors() map[ssa.Instruction]anchorInfo {
 		base string
 		pos  token.Pos
 		seq  int
+		sub  []ev // events of a contract-less callee that is executed in place, spliced after its call
 	}
-	var evs []ev
 	seq := 0
-	for _, b := range fx.rootFn().Blocks {
-		for _, in := range b.Instrs {
-			seq++
-			base := ""
-			switch x := in.(type) {
-			case *ssa.Call:
-				base = "call(" + callShortName(x.Common()) + ")"
-			case *ssa.Defer:
-				base = "defer(" + callShortName(x.Common()) + ")"
-			case *ssa.Go:
-				base = "go"
-			case *ssa.Select:
-				base = "select"
-			case *ssa.Send:
-				base = "send"
-			case *ssa.UnOp:
-				if x.Op == token.ARROW {
-					base = "recv"
+	spliced := map[*ssa.Function]bool{}
+	root := fx.rootFn()
+	// seeThrough: would a static call to f be executed in place? (no contract, loop-free, in this module)
+	seeThrough := func(f *ssa.Function, depth int) bool {
+		if f == nil || len(f.Blocks) == 0 || depth >= 3 || f == root || spliced[f] {
+			return false
+		}
+		if ct, _ := fx.g.contractForFn(f); ct != nil {
+			return false
+		}
+		for _, b := range f.Blocks {
+			for _, s := range b.Succs {
+				if s.Dominates(b) {
+					return false
 				}
-				if x.Op == token.MUL {
-					if fa, ok := x.X.(*ssa.FieldAddr); ok {
-						base = "load(" + fieldName(fa) + ")"
-					}
-				}
-			case *ssa.Store:
-				if fa, ok := x.Addr.(*ssa.FieldAddr); ok {
-					base = "store(" + fieldName(fa) + ")"
-				}
-			case *ssa.Return:
-				base = "return"
-			case *ssa.Alloc:
-				if x.Heap {
-					if n := namedOf(deref(x.Type())); n != nil {
-						base = "new(" + n.Obj().Name() + ")"
-					}
-				}
-			case *ssa.MakeChan:
-				base = "makechan"
-			case *ssa.TypeAssert:
-				base = "typeassert"
-			case *ssa.Extract:
-				if _, ok := x.Tuple.(*ssa.Select); ok && x.Index >= 2 {
-					base = "selrecv"
-				}
-			case *ssa.MapUpdate:
-				base = "mapupdate"
-				if t := fx.nodeText[x.Pos()]; t != "" {
-					base = "mapupdate(" + t + ")"
-				}
-			}
-			if base != "" {
-				evs = append(evs, ev{in, base, in.Pos(), seq})
 			}
 		}
+		return true
 	}
-	sort.SliceStable(evs, func(i, j int) bool {
-		if evs[i].pos != evs[j].pos {
-			return evs[i].pos < evs[j].pos
+	var collect func(f *ssa.Function, depth int) []ev
+	collect = func(f *ssa.Function, depth int) []ev {
+		var evs []ev
+		for _, b := range f.Blocks {
+			for _, in := range b.Instrs {
+				seq++
+				base := ""
+				var sub []ev
+				switch x := in.(type) {
+				case *ssa.Call:
+					base = "call(" + callShortName(x.Common()) + ")"
+					// anchors see through helpers that are executed in place: their instructions count
+					// as if they stood at the call (so extracting a few lines into a helper, or inlining
+					// one, does not renumber the anchors of the function)
+					if callee := x.Common().StaticCallee(); callee != nil && seeThrough(callee, depth) {
+						spliced[callee] = true
+						sub = collect(callee, depth+1)
+					}
+				case *ssa.Defer:
+					base = "defer(" + callShortName(x.Common()) + ")"
+				case *ssa.Go:
+					base = "go"
+				case *ssa.Select:
+					base = "select"
+				case *ssa.Send:
+					base = "send"
+				case *ssa.UnOp:
+					if x.Op == token.ARROW {
+						base = "recv"
+					}
+					if x.Op == token.MUL {
+						if fa, ok := x.X.(*ssa.FieldAddr); ok {
+							base = "load(" + fieldName(fa) + ")"
+						}
+					}
+				case *ssa.Store:
+					if fa, ok := x.Addr.(*ssa.FieldAddr); ok {
+						base = "store(" + fieldName(fa) + ")"
+					}
+				case *ssa.Return:
+					if depth == 0 {
+						base = "return"
+					}
+				case *ssa.Alloc:
+					if x.Heap {
+						if n := namedOf(deref(x.Type())); n != nil {
+							base = "new(" + n.Obj().Name() + ")"
+						}
+					}
+				case *ssa.MakeChan:
+					base = "makechan"
+				case *ssa.TypeAssert:
+					base = "typeassert"
+				case *ssa.Extract:
+					if _, ok := x.Tuple.(*ssa.Select); ok && x.Index >= 2 {
+						base = "selrecv"
+					}
+				case *ssa.MapUpdate:
+					base = "mapupdate"
+					if t := fx.nodeText[x.Pos()]; t != "" {
+						base = "mapupdate(" + t + ")"
+					}
+				}
+				if base != "" {
+					evs = append(evs, ev{in, base, in.Pos(), seq, sub})
+				}
+			}
 		}
-		return evs[i].seq < evs[j].seq
-	})
+		sort.SliceStable(evs, func(i, j int) bool {
+			if evs[i].pos != evs[j].pos {
+				return evs[i].pos < evs[j].pos
+			}
+			return evs[i].seq < evs[j].seq
+		})
+		return evs
+	}
 	cnt := map[string]int{}
 	out := map[ssa.Instruction]anchorInfo{}
-	for _, e := range evs {
-		cnt[e.base]++
-		out[e.in] = anchorInfo{e.base, cnt[e.base]}
+	var number func(evs []ev)
+	number = func(evs []ev) {
+		for _, e := range evs {
+			cnt[e.base]++
+			out[e.in] = anchorInfo{e.base, cnt[e.base]}
+			number(e.sub)
+		}
 	}
+	number(collect(root, 0))
 	return out
 }
 
